@@ -892,8 +892,9 @@ static void skip_line () {
 
   while (((c = *yyp++) != '\n') && (c != LEX_EOF));
 
-  /* Next read of this '\n' will do refill_buffer() if neccesary */
-  if (c == '\n')
+  /* Next read of this '\n' will do refill_buffer() if neccesary; the end-of-input
+   * mark must be seen by the caller as well, otherwise lexing goes on behind it */
+  if (c == '\n' || c == LEX_EOF)
     yyp--;
   outptr = yyp;
 }
